@@ -123,13 +123,62 @@ func ruleAddVar(c *Ctx, r *Repo) {
 		c.Fail("R13.3", "AddVar|arms", r.Pos(fd.Pos()), "AddVar does not branch on 'replacement != nil' with both arms")
 		return
 	}
-	// replacement arm
+	// replacement arm. The loading and lookup may live in a function of the package that the arm calls
+	// with the replacement; then that function is the search region and its first two results are the
+	// object and its package as AddVar sees them.
 	var loadPkgs, object, objectPkg types.Object
 	okLoad := false
+	region := ast.Node(ifs.Body) // where the package is loaded and the object looked up
+	regionFn := fd
+	wantPath := "ARG3.PkgPath"
+	var useObject, useObjectPkg types.Object // the same two values in AddVar's own scope
 	ast.Inspect(ifs.Body, func(n ast.Node) bool {
+		as, ok := n.(*ast.AssignStmt)
+		if !ok || len(as.Rhs) != 1 || len(as.Lhs) < 2 {
+			return true
+		}
+		call, ok := as.Rhs[0].(*ast.CallExpr)
+		if !ok {
+			return true
+		}
+		fn := calleeFunc(info, call)
+		h := pkgFuncs(tp)[fn]
+		if fn == nil || h == nil || h == fd {
+			return true
+		}
+		loads := false
+		ast.Inspect(h.Body, func(m ast.Node) bool {
+			if c2, ok := m.(*ast.CallExpr); ok && calleeName(info, c2) == "golang.org/x/tools/go/packages.Load" {
+				loads = true
+			}
+			return true
+		})
+		if !loads {
+			return true
+		}
+		// which parameter receives the replacement
+		i := 0
+		for _, f := range h.Type.Params.List {
+			for range f.Names {
+				if i < len(call.Args) && isObj(info, call.Args[i], repl) {
+					wantPath = fmt.Sprintf("ARG%d.PkgPath", i)
+				}
+				i++
+			}
+		}
+		region, regionFn = h.Body, h
+		if a, ok := as.Lhs[0].(*ast.Ident); ok {
+			useObject = objOf(info, a)
+		}
+		if b, ok := as.Lhs[1].(*ast.Ident); ok {
+			useObjectPkg = objOf(info, b)
+		}
+		return true
+	})
+	ast.Inspect(region, func(n ast.Node) bool {
 		if as, ok := n.(*ast.AssignStmt); ok && len(as.Rhs) == 1 {
 			if call, ok := as.Rhs[0].(*ast.CallExpr); ok && calleeName(info, call) == "golang.org/x/tools/go/packages.Load" && len(call.Args) == 2 {
-				if newFuncCanon(info, fd).E(call.Args[1]) == "ARG3.PkgPath" {
+				if newFuncCanon(info, regionFn).E(call.Args[1]) == wantPath {
 					okLoad = true
 					loadPkgs = objOf(info, as.Lhs[0].(*ast.Ident))
 				}
@@ -140,7 +189,7 @@ func ruleAddVar(c *Ctx, r *Repo) {
 	c.Check(okLoad, "R13.3", "AddVar|load-replacement-package", r.Pos(ifs.Pos()), "loads replacement.PkgPath", "the replacement arm does not load the package named by replacement.PkgPath")
 	// every assignment to the looked-up object
 	okObj, nObj := true, 0
-	ast.Inspect(ifs.Body, func(n ast.Node) bool {
+	ast.Inspect(region, func(n ast.Node) bool {
 		rs, ok := n.(*ast.RangeStmt)
 		if !ok {
 			return true
@@ -175,7 +224,7 @@ func ruleAddVar(c *Ctx, r *Repo) {
 	})
 	// no other assignment to object anywhere in the function
 	other := 0
-	ast.Inspect(fd.Body, func(n ast.Node) bool {
+	ast.Inspect(regionFn.Body, func(n ast.Node) bool {
 		if as, ok := n.(*ast.AssignStmt); ok {
 			for i, l := range as.Lhs {
 				if id, ok := l.(*ast.Ident); ok && object != nil && info.Uses[id] == object {
@@ -193,7 +242,20 @@ func ruleAddVar(c *Ctx, r *Repo) {
 	c.Check(okObj && nObj == 1 && other == 0, "R13.3", "AddVar|object-origin", r.Pos(ifs.Pos()), "the replacement object is Scope().Lookup(replacement.TypeName) of a loaded package, nothing else", "the object whose type replaces the parameter's type does not come exclusively from Scope().Lookup(replacement.TypeName) in the package loaded for replacement.PkgPath (e.g. a cache keyed by package path alone hands out the first type resolved in that package)")
 	// miss is an error
 	okMiss := false
-	for _, s := range ifs.Body.List {
+	missList := ifs.Body.List
+	if regionFn != fd {
+		missList = regionFn.Body.List
+		// the helper hands back exactly the object and package it found
+		ast.Inspect(regionFn.Body, func(n ast.Node) bool {
+			if rs, ok := n.(*ast.ReturnStmt); ok && len(rs.Results) == 3 && isNilIdent(info, rs.Results[2]) {
+				if !isObj(info, rs.Results[0], object) || !isObj(info, rs.Results[1], objectPkg) {
+					okObj = false
+				}
+			}
+			return true
+		})
+	}
+	for _, s := range missList {
 		if x, ok := s.(*ast.IfStmt); ok {
 			if be, ok := x.Cond.(*ast.BinaryExpr); ok && be.Op == token.EQL {
 				if id, ok := be.X.(*ast.Ident); ok && info.Uses[id] == object && isNilIdent(info, be.Y) && returnsError(info, x.Body) {
@@ -205,6 +267,9 @@ func ruleAddVar(c *Ctx, r *Repo) {
 	c.Check(okMiss, "R13.3", "AddVar|miss-is-error", r.Pos(ifs.Pos()), "unknown replacement type is an error", "a replacement type that does not exist is not reported as an error")
 	// v = Var{typ: object.Type(), imports: imports}; addImport(ctx, objectPkg.Types, imports)
 	okTyp, okImp := false, false
+	if regionFn != fd {
+		object, objectPkg = useObject, useObjectPkg
+	}
 	ast.Inspect(ifs.Body, func(n ast.Node) bool {
 		switch x := n.(type) {
 		case *ast.KeyValueExpr:
